@@ -60,6 +60,11 @@ CLAIMED = {
    note="In-process serving (RemoteAddr set by the harness), no TLS, no real sockets for this property (C16 uses real ports). Header values are compared case-insensitively by design of the code; value-case variants are not generated. The run-time edit clause is exercised in C16.",
    technique="TLA+ admission function + exhaustive TLC over the feature product; cells replayed into the real handler; TLC trace validation",
    design="DESIGN.md §5 C12"),
+ "C13": dict(
+   text="ConfigLayout.tla gives the configuration block as a function of build options and listener settings in the order and with the numeric codes the Demon reads (transcribed from Demon.c, SleepObf.h, Defines.h), including which listener settings are encodable at all (working-hours grammar and packing, GET, non-numeric ports, IPv6 host literals); TLC checks all 696k cells (81k option combinations, 615k listener configurations). Each replayed cell runs the real PatchConfig twice (two builds for one listener object) and the block is read back field by field by an independent reader of the Demon's layout; thorough replays every cell, quick a seeded 8.5k sample. ShellSafe.tla covers operator build strings: 10 service-name classes go through the real Build() with stub compiler/assembler scripts that record argv, a marker file detects anything else that ran, and the define must decode (as a C string literal) to the name.",
+   note="The real mingw/nasm toolchain is replaced by stubs, only the command line is observed. Option and listener parts are enumerated separately (they do not interact in the block). Zero-host lists and out-of-range ports are not classified as unencodable.",
+   technique="TLA+ layout function + exhaustive TLC; cells replayed through the real packer and read back by an independent reader; TLC trace validation",
+   design="DESIGN.md §5 C13"),
 }
 NOT_BUILT = "machinery not built yet (construction order in DESIGN.md §8); not claimed until its check runs clean on the unchanged tree"
 
